@@ -1,2 +1,3 @@
 import DeadpoolVerif.Model.Sem
 import DeadpoolVerif.Model.Managed
+import DeadpoolVerif.Model.Unmanaged
